@@ -65,6 +65,8 @@ structure St where
   items : List Item := []
   /-- MonitoredItemService.id -/
   nextItem : Nat := 0
+  /-- SubscriptionService.lastSubID (the id of the most recently created subscription) -/
+  lastSub : Nat := 0
   /-- value of the writable test variable -/
   value : Int := 0
   /-- `len(s.endpoints) == 0` (no EnableSecurity option) -/
@@ -180,14 +182,24 @@ def delSubsLoop (st : St) (caller : Option Session) : List Nat → Except Site (
           if c.token != o then .ok ("BadSessionIDInvalid" :: codes, dels)
           else .ok ("Good" :: codes, id :: dels)
 
-/-- the loop of SetMonitoringMode / DeleteMonitoredItems: `item.Sub.Session.AuthTokenID.String() != sess.AuthTokenID.String()`
-    is evaluated for every id, before (SetMonitoringMode) or after (DeleteMonitoredItems) the `ok` test,
-    and its verdict is then overwritten by `results[i] = ua.StatusOK` -/
-def itemLoop (st : St) (caller : Option Session) (site : Site) : List Nat → Except Site (List String)
+/-- the loop of SetMonitoringMode / DeleteMonitoredItems over the requested ids.  Two regenerated
+    facts decide its shape: `unknownContinues` — a failed lookup is answered
+    BadMonitoredItemIDInvalid and skipped before `item.Sub.Session…` is evaluated (otherwise the nil
+    item is dereferenced); `mismatchContinues` — an item of another session is answered
+    BadSessionIDInvalid and skipped (otherwise the verdict is overwritten by Good).  The test itself,
+    `item.Sub.Session.AuthTokenID.String() != sess.AuthTokenID.String()`, dereferences the
+    subscription's session and the caller's session without nil check. -/
+def itemLoop (st : St) (caller : Option Session) (site : Site) (unknownContinues mismatchContinues : Bool) :
+    List Nat → Except Site (List String)
   | [] => .ok []
   | id :: rest =>
     match findItem st id with
-    | none => .error site                       -- `item` is nil: item.Sub
+    | none =>
+      if unknownContinues then
+        match itemLoop st caller site unknownContinues mismatchContinues rest with
+        | .ok codes => .ok ("BadMonitoredItemIDInvalid" :: codes)
+        | .error e => .error e
+      else .error site                          -- `item` is nil: item.Sub
     | some it =>
       match findSub st it.sub with
       | none => .error site                     -- not reachable: items of a deleted subscription are purged
@@ -195,10 +207,14 @@ def itemLoop (st : St) (caller : Option Session) (site : Site) : List Nat → Ex
         match sub.owner, caller with
         | none, _ => .error site
         | some _, none => .error site
-        | some _, some _ =>
-          match itemLoop st caller site rest with
-          | .ok codes => .ok ("Good" :: codes)
+        | some o, some c =>
+          match itemLoop st caller site unknownContinues mismatchContinues rest with
+          | .ok codes => .ok ((if mismatchContinues && o != c.token then "BadSessionIDInvalid" else "Good") :: codes)
           | .error e => .error e
+
+/-- the ids a DeleteMonitoredItems request really deletes: every id that was answered Good -/
+def deletedItems (ids : List Nat) (codes : List String) : List Nat :=
+  (ids.zip codes).filterMap fun p => if p.2 == "Good" then some p.1 else none
 
 /-- items `nextItem+1 … nextItem+n` for subscription `sub` -/
 def newItems (next : Nat) (sub : Nat) : Nat → List Item
@@ -258,9 +274,10 @@ def body (st : St) (t : Tok) : Req → St × Out
         | _ => (st, .ok "Good")                        -- nil value: falls through to the reference scan
       else (st, .ok "Good")
   | .createSubscription iv =>
-    let id := st.subs.length + 1
+    -- `uint32(len(s.Subs)) + 1` (ids are reused) or `s.lastSubID++` (never reused): regenerated fact
+    let id := if subIdByLen then st.subs.length + 1 else st.lastSub + 1
     let owner := (findSession st t).map (·.token)
-    let st' := { st with subs := putSub st.subs ⟨id, owner⟩ }
+    let st' := { st with subs := putSub st.subs ⟨id, owner⟩, lastSub := id }
     -- sub.Start(): go run(); the handler itself answers
     match iv with
     | .subMs => (st', .crash "Subscription.run")          -- time.NewTicker(non-positive)
@@ -290,13 +307,15 @@ def body (st : St) (t : Tok) : Req → St × Out
         else ({ st with items := st.items ++ newItems st.nextItem subId n, nextItem := st.nextItem + n },
               .ok (joinCodes (List.replicate n "Good")))
   | .setMonitoringMode ids =>
-    match itemLoop st (findSession st t) "MonitoredItemService.SetMonitoringMode" ids with
+    match itemLoop st (findSession st t) "MonitoredItemService.SetMonitoringMode" setModeUnknownContinues setModeMismatchContinues ids with
     | .error site => (st, .crash site)
     | .ok codes => (st, .ok (joinCodes codes))
   | .deleteMonitoredItems ids =>
-    match itemLoop st (findSession st t) "MonitoredItemService.DeleteMonitoredItems" ids with
+    match itemLoop st (findSession st t) "MonitoredItemService.DeleteMonitoredItems" delItemsUnknownContinues delItemsMismatchContinues ids with
     | .error site => (st, .crash site)
-    | .ok codes => ({ st with items := st.items.filter (fun i => !ids.contains i.id) }, .ok (joinCodes codes))
+    | .ok codes =>
+      -- go s.DeleteMonitoredItem(id) for the ids that got past both tests
+      ({ st with items := st.items.filter (fun i => !(deletedItems ids codes).contains i.id) }, .ok (joinCodes codes))
   | .other _ => (st, unsupportedFault)
 
 /-- `handleService`: dispatch through the registration table -/
